@@ -2821,6 +2821,11 @@ func (a *Agent) handlePeerDisconnect(conn *peer.Connection, err error) {
 
 // cleanupRelaysForPeer removes all relay entries involving the specified peer.
 func (a *Agent) cleanupRelaysForPeer(peerID identity.AgentID) {
+	// UDP associations and ICMP sessions relayed through this agent: same
+	// treatment as relayed TCP streams below, with their own close frames.
+	a.cleanupDatagramRelaysForPeer(peerID, a.udpRelay, protocol.FrameUDPClose, (&protocol.UDPClose{Reason: protocol.UDPCloseError}).Encode())
+	a.cleanupDatagramRelaysForPeer(peerID, a.icmpRelay, protocol.FrameICMPClose, (&protocol.ICMPClose{Reason: protocol.ICMPCloseError}).Encode())
+
 	removed := a.tcpRelay.PopByPeer(peerID)
 	if len(removed) == 0 {
 		return
@@ -2849,6 +2854,34 @@ func (a *Agent) cleanupRelaysForPeer(peerID identity.AgentID) {
 			}
 			a.peerMgr.SendToPeer(dstPeer, &protocol.Frame{
 				Type:     protocol.FrameStreamReset,
+				StreamID: dstID,
+				Payload:  payload,
+			})
+		}
+	}()
+}
+
+// cleanupDatagramRelaysForPeer removes the relay entries of table that involve
+// the disconnected peer and sends the given close frame to the peer on the
+// surviving side of each, so that the entries further along the path (and the
+// association at the exit or the ingress) do not stay behind.
+func (a *Agent) cleanupDatagramRelaysForPeer(peerID identity.AgentID, table *relayTable, frameType uint8, payload []byte) {
+	removed := table.PopByPeer(peerID)
+	if len(removed) == 0 {
+		return
+	}
+	go func() {
+		defer recovery.RecoverWithLog(a.logger, "cleanupDatagramRelaysForPeer")
+		for _, e := range removed {
+			dstPeer, dstID := e.UpstreamPeer, e.UpstreamID
+			if e.UpstreamPeer == peerID {
+				dstPeer, dstID = e.DownstreamPeer, e.DownstreamID
+			}
+			if dstPeer == peerID {
+				continue
+			}
+			a.peerMgr.SendToPeer(dstPeer, &protocol.Frame{
+				Type:     frameType,
 				StreamID: dstID,
 				Payload:  payload,
 			})
